@@ -94,7 +94,7 @@ def replay(pid, path):
 
 HOOK_COMMITS = ["5aa5cc2", "022b891", "48f2d61"]
 NOT_YET = {}
-PENDING = {"C25"}   # built, but not yet quiet on the unchanged tree: not claimed in MANIFEST.json until it is
+PENDING = set()   # built, but not yet quiet on the unchanged tree: not claimed in MANIFEST.json until it is
 TB = ("Trusted: Coq kernel + vm_compute; no axioms (Print Assumptions checked each run); extraction ExtrOcamlBasic+ExtrOcamlZBigInt cross-checked by "
       "vm_compute on a sample each run; translators (harness/cmd/xlate), Go harness, OCaml driver; the Go source is modelled, tied by regenerated "
       "constants and differential execution; math/big, IAVL, tm-db, crypto trusted. ")
@@ -188,7 +188,7 @@ META = {
         technique="Coq proof (lia/nia over Z, induction over routes and order books) + differential correspondence against the real node + monitors"),
     "C25": dict(
         text="Theorems: (1) in a threads-with-RWMutex semantics (Acq R|W / Rel / Read / Write, any interleaving) threads that are well bracketed, never re-acquire a mutex they hold, read a field only under one of its guard mutexes and write it only under all of them in W mode never reach a configuration in which two threads are about to access one field, one writing (C25_lockset_race_free); tables accepted by the decidable checker all_guarded induce such threads (C25_table_race_free); for the current tree every thread that stays away from the reported sites is race free (C25_repo_race_free_except_reported), the reported list being exactly what Coq computes from the regenerated table (C25_unguarded_sites). (2) queries that fill a cache atomically with the value the committed tree holds leave every executor output and the logical content unchanged for every interleaving (C25_memo_transparent, C25_memo_interleaving_independent); a fill whose absence check and store are two critical sections does not (C25_memo_nonatomic_refuted, the shape of Accounts.get). The access table (324 accesses to 52 shared fields of swap, candidates, accounts, validators, coins, waitlist, frozenfunds, appdb, minter with must-held locksets, caller-inherited locks, query reachability), the lock order graph, re-acquisitions and non-atomic fills are regenerated from /repo by a go/ast+go/types translator on every run. Search: generated histories replayed on the real node while 4 goroutines call the real api/v2/service handlers on the live state, in a -race build, in a child process; app hashes / responses / validator updates / emission compared with the run alone; a watchdog turns a hang into a goroutine dump; a targeted first-touch scenario for the non-atomic fill.",
-        note=TB + "PARTIAL by nature: the discipline theorem is proved, the table is extracted by a conservative static analysis (trusted; must-locksets, fail-closed: an access it cannot attribute is emitted unguarded; lock identity = owning struct + field + base expression; interface calls by class hierarchy; function-typed fields by their bindings), real schedules are only sampled. Deadlock freedom is NOT a theorem: lock-order cycles and re-acquisitions are reported by the translator and searched at run time. sync/atomic fields, per-object field reads by the API layer (stake, Candidate, Limit fields read without the object's lock) are outside the table: only the race detector speaks. Export and the Load* methods run on private states only (checked syntactically on every run). Handler panics are caught by the gRPC recovery interceptor and are recorded, not counted. Findings: see known_findings.json (four defects repaired in /repo: 259ab52, 67be03c, eee65ec, 301c0af; the unlocked field reads of the API layer and the remaining statically reported sites are listed as known).",
+        note=TB + "PARTIAL by nature: the discipline theorem is proved, the table is extracted by a conservative static analysis (trusted; must-locksets, fail-closed: an access it cannot attribute is emitted unguarded; lock identity = owning struct + field + base expression; interface calls by class hierarchy; function-typed fields by their bindings), real schedules are only sampled. Deadlock freedom is NOT a theorem: lock-order cycles and re-acquisitions are reported by the translator and searched at run time. sync/atomic fields, per-object field reads by the API layer (stake, Candidate, Limit fields read without the object's lock) are outside the table: only the race detector speaks. Export and the Load* methods run on private states only (checked syntactically on every run). Handler panics are caught by the gRPC recovery interceptor and are recorded, not counted. Findings: see known_findings.json (seven defects repaired in /repo: 259ab52, 67be03c, eee65ec, 301c0af, e3e65c2, 0dd8b12, a1c8ec3). Statically reported sites that are not defects are on a reviewed list pinned in Properties/C25.v (C25_static_sites_reviewed: per site an argument and source facts re-checked on every run); a lock removed around a tracked shared container breaks the proof gate (51 of the 94 Lock/RLock pairs of swapV2.go, accounts.go, candidates.go; the other 43 guard executor-only fields or plain per-object fields, whose unsynchronised reads by the API layer are recorded by the race build but cannot crash or perturb execution).",
         technique="Coq proof of the lockset discipline and of memoisation transparency + regenerated access table evaluated in Coq + race-detector / deadlock / perturbation search on the real node under real API handlers"),
     "C29": dict(
         text="Theorems: two nodes that committed the same blocks - with ANY restarts in between - produce identical snapshots (appdb disk records in the code's order + tree export); a node restored from a snapshot reports the producer's height and app hash; from then on it is observationally equal (responses, hashes, every appdb getter) to the producer for every continuation (simulation relation: the restored node has an empty events db and a single tree version). Tie: snapshot_records / restore_records / snapshot_reads_disk regenerated from snapshots.go. Node level: real cosmos-sdk snapshot store; producer A, producer B restarted at random heights (chunk bytes must be identical), restored node R driven through OfferSnapshot / ApplySnapshotChunk, then the same continuation on A and R: Info, responses, hashes, getters, exports, appdb bytes.",
